@@ -202,6 +202,7 @@ type Shape struct {
 	Format  Format
 	Variant Variant
 	W       Widths
+	Addr64  bool // FLAT: the decoded address operand is a 64-bit VGPR pair (no scalar base)
 }
 
 func putV(s *State, l, reg int, x uint32) {
@@ -253,7 +254,7 @@ func SetLaneAddr(s *State, sh *Shape, p, l int, poison bool) {
 		}
 		putV(s, l, RegAddr, a)
 	case FLAT:
-		if sh.Variant.SAddr == 0x7F {
+		if sh.Addr64 {
 			a := MemAddr(p, l)
 			if poison {
 				a = MemPoison + uint64(MemStride*Region(p, l))
@@ -281,6 +282,9 @@ func Build(s *State, sh *Shape, p int, exec uint64, poison bool) {
 	}
 	PutS64(s, SRegUni, uniConst[p])
 	PutS64(s, SRegBase, MemBase)
+	if sh.Format == FLAT && sh.Variant.SAddr == 0 {
+		PutS64(s, 0, MemBase) // CDNA3 reads SADDR=0 as s[0:1]
+	}
 	PutS64(s, SRegMask, maskConst[p])
 	PutS64(s, SRegSrc1, uni1Const[p])
 	s.VCC = vccConst[p]
